@@ -1,3 +1,259 @@
+//! C05 — text that already fits is returned unchanged; the shortcut path is
+//! unobservable. This is the only binary that links `textwrap::fuzzing`
+//! (upstream's `--cfg fuzzing` entry points), so that a change to those entry
+//! points cannot break the other checks.
+
+use std::borrow::Cow;
+use twmon::case::{Algo, Case, OptSpec, Pen, Sep, Split};
+use twmon::gen::opts::{self, OptDomain};
+use twmon::json::J;
+use twmon::oracle::ansi::clean_ansi;
+use twmon::oracle::width::ref_width;
+use twmon::props::common::*;
+use twmon::rng::Rng;
+use twmon::run::{Obs, Prop, RunCfg, Verdict, Worker};
+
+const DOM: OptDomain = OptDomain {
+    allow_custom_split: true,
+    allow_optimal: true,
+    allow_random_pen: true,
+    hostile_pen: false,
+    allow_indents: true,
+    allow_unicode: true,
+};
+
+fn gen(r: &mut Rng, _cfg: &RunCfg) -> Case {
+    match r.below(5) {
+        0..=1 => {
+            // sweep: clean single paragraph, all widths from the display width to beyond the byte length
+            let mut p = gen_line(r, TextDomain::Clean);
+            if p.len() > 120 {
+                let mut cut = 120;
+                while !p.is_char_boundary(cut) {
+                    cut -= 1;
+                }
+                p.truncate(cut);
+                if !clean_ansi(&p) {
+                    p = "truncated ".to_string();
+                }
+            }
+            let mut o = OptSpec::new(0);
+            if r.chance(1, 3) {
+                o.ii = opts::indent(r);
+            }
+            o.si = if r.chance(1, 4) { opts::indent(r) } else { String::new() };
+            o.bw = r.coin();
+            o.crlf = r.chance(1, 4);
+            o.sep = if cfg!(feature = "ulb") && r.coin() { Sep::Unicode } else { Sep::Ascii };
+            o.split = if r.coin() { Split::Hyphen } else { Split::None };
+            o.algo = if cfg!(feature = "smawk") && r.coin() { Algo::Optimal(Pen::DEFAULT) } else { Algo::FirstFit };
+            Case::new("sweep").text(p).opt(o)
+        }
+        2..=3 => {
+            // differential on single lines, dirty sequences included
+            let line = gen_line(r, TextDomain::Any);
+            let w = match r.below(4) {
+                0 => line.len().saturating_sub(2) + r.below(5),
+                1 => r.range(0, line.len() + 3),
+                2 => ref_width(&line).saturating_sub(1) + r.below(4),
+                _ => opts::width(r, line.len(), ref_width(&line)),
+            };
+            let mut o = opts::options(r, DOM, w);
+            if r.chance(2, 3) {
+                o.ii.clear();
+            }
+            if r.chance(2, 3) {
+                o.si.clear();
+            }
+            Case::new("diff_line").text(line).opt(o).num(r.below(2))
+        }
+        _ => {
+            let text = if r.coin() { gen_line(r, TextDomain::Any) } else { gen_text(r, TextDomain::Any) };
+            let w = match r.below(3) {
+                0 => text.len().saturating_sub(2) + r.below(5),
+                1 => r.range(0, text.len() + 3),
+                _ => opts::width(r, text.len(), ref_width(&text)),
+            };
+            let mut o = opts::options(r, DOM, w);
+            if r.chance(2, 3) {
+                o.ii.clear();
+            }
+            Case::new("diff_fill").text(text).opt(o)
+        }
+    }
+}
+
+fn check(case: &Case, obs: &mut Obs) -> Verdict {
+    let o = case.o(0);
+    if !o.available() {
+        return Verdict::Skipped("options not available in this feature set");
+    }
+    match case.sub.as_str() {
+        "sweep" => {
+            let p = case.t(0);
+            if !clean_ansi(p) || !clean_ansi(&o.ii) || p.contains('\n') || p.contains('\r') {
+                return Verdict::Skipped("outside the sweep's domain");
+            }
+            if o.split == Split::Custom {
+                return Verdict::Skipped("custom splitter (inserted hyphens) is outside the fitting-text clause");
+            }
+            if let Algo::Optimal(pen) = o.algo {
+                if !pen.is_default() {
+                    return Verdict::Skipped("non-default penalties");
+                }
+            }
+            let dw = textwrap::core::display_width;
+            let lo = dw(&o.ii) + dw(p);
+            let hi = p.len() + dw(&o.ii) + 2;
+            let want = format!("{}{}", o.ii, p.trim_end_matches(' '));
+            let mut fast = 0u64;
+            let mut slow = 0u64;
+            for w in lo..=hi {
+                let mut ow = o.clone();
+                ow.width = w;
+                let lines = textwrap::wrap(p, ow.build());
+                obs.calls += 1;
+                if lines.len() != 1 || lines[0] != want {
+                    return Verdict::Violated(format!(
+                        "paragraph {:?} (display width {} + indent {}) fits width {} but wrap returned {:?} instead of [{:?}]",
+                        p, dw(p), dw(&o.ii), w, lines, want
+                    ));
+                }
+                if p.len() < w && o.ii.is_empty() {
+                    fast += 1;
+                } else {
+                    slow += 1;
+                }
+            }
+            if fast > 0 && slow > 0 {
+                obs.bump("sweep_crossed_shortcut_threshold");
+            }
+            obs.add("sweep_widths_general_path", slow);
+            obs.add("sweep_widths_shortcut", fast);
+            if obs.want_sample {
+                obs.out = Some(J::obj().set("widths", J::s(&format!("{}..={}", lo, hi))).set("line", J::s(&want)));
+            }
+            Verdict::held(
+                !p.is_empty() && slow > 0,
+                h(&[0, o.shape(), bucket(hi - lo), (p.len() > dw(p)) as u64, p.contains('\u{1b}') as u64, p.ends_with(' ') as u64, p.starts_with(' ') as u64]),
+            )
+        }
+        "diff_line" => {
+            let line = case.t(0);
+            let opts = o.build();
+            let seed_lines = case.nums[0];
+            let mut a: Vec<Cow<str>> = Vec::new();
+            let mut b: Vec<Cow<str>> = Vec::new();
+            for _ in 0..seed_lines {
+                a.push(Cow::from("earlier line"));
+                b.push(Cow::from("earlier line"));
+            }
+            textwrap::fuzzing::wrap_single_line(line, &opts, &mut a);
+            textwrap::fuzzing::wrap_single_line_slow_path(line, &opts, &mut b);
+            obs.calls += 2;
+            if a != b {
+                return Verdict::Violated(format!("wrap_single_line {:?} != wrap_single_line_slow_path {:?} for line {:?}", a, b, line));
+            }
+            let indent_empty = if seed_lines == 0 { o.ii.is_empty() } else { o.si.is_empty() };
+            let shortcut = line.len() < o.width && indent_empty;
+            if shortcut {
+                obs.bump("diff_line_shortcut_taken");
+            } else {
+                obs.bump("diff_line_general_path");
+            }
+            if obs.want_sample {
+                obs.out = Some(lines_json(&a));
+            }
+            Verdict::held(shortcut, h(&[1, o.shape(), shortcut as u64, bucket(a.len()), !clean_ansi(line) as u64, (line.len() > ref_width(line)) as u64]))
+        }
+        _ => {
+            let text = case.t(0);
+            let a = textwrap::fill(text, o.build());
+            let b = textwrap::fuzzing::fill_slow_path(text, o.build());
+            obs.calls += 2;
+            if a != b {
+                return Verdict::Violated(format!("fill {:?} != fill_slow_path {:?} for text {:?}", a, b, text));
+            }
+            let shortcut = text.len() < o.width && !text.contains('\n') && o.ii.is_empty();
+            if shortcut {
+                obs.bump("diff_fill_shortcut_taken");
+            } else {
+                obs.bump("diff_fill_general_path");
+            }
+            Verdict::held(shortcut, h(&[2, o.shape(), shortcut as u64, !clean_ansi(text) as u64, (text.len() > ref_width(text)) as u64]))
+        }
+    }
+}
+
+/// KF-2: the hyphen splitter cuts inside an escape sequence that contains a
+/// hyphen; attributable when the same case holds without the hyphen splitter.
+fn known(case: &Case, _msg: &str) -> Option<&'static str> {
+    let o = case.o(0);
+    if o.split == Split::Hyphen && twmon::oracle::words::hyphen_point_inside_sequence(case.t(0)) {
+        let mut c2 = case.clone();
+        c2.opts[0].split = Split::None;
+        let mut obs = Obs::default();
+        if matches!(check(&c2, &mut obs), Verdict::Held { .. }) {
+            return Some("KF-2");
+        }
+    }
+    None
+}
+
+fn extra(cfg: &RunCfg, w: &mut Worker) {
+    // exhaustive small strings: sweep over every width for every small clean string
+    let max = if cfg.thorough { 6 } else { 4 };
+    let alphabet: &[&str] = &["a", " ", "-", "你", "\u{301}", "\u{1b}[m"];
+    let threads = cfg.threads.max(1);
+    let mut idx = 0usize;
+    let mut todo = Vec::new();
+    twmon::gen::text::enumerate_strings(alphabet, max, |s| {
+        if idx % threads == w.id {
+            todo.push(s.to_string());
+        }
+        idx += 1;
+    });
+    let mut n = 0u64;
+    'outer: for s in todo {
+        for g in small_option_grid() {
+            if w.stopped() {
+                break 'outer;
+            }
+            w.run_case(&Case::new("sweep").text(s.clone()).opt(g.clone()));
+            n += 1;
+        }
+    }
+    if w.id == 0 {
+        w.note_exhaustive(
+            "small-strings-sweep",
+            &format!("all strings of <= {} tokens over {{a,' ','-',你,U+0301,ESC[m}} x option grid, each swept over every width from the display width to byte length + 2 (sharded; this worker ran {})", max, n),
+            n * threads as u64,
+        );
+    }
+}
+
+fn prop() -> Prop {
+    Prop {
+        id: "C05",
+        rule: "sweep (2/5): clean single paragraphs (multi-byte and coloured, so byte length > display width) with optional indents, every separator, built-in splitters, break_words on/off, first-fit and default-penalty optimal-fit, wrapped at EVERY width from display width (+ indent) to byte length + 2: the result must be exactly [indent + paragraph without trailing spaces]; differential (3/5): textwrap::fuzzing::wrap_single_line vs wrap_single_line_slow_path on arbitrary lines (dirty sequences included, with and without previously emitted lines) and fill vs fill_slow_path on arbitrary texts, widths on both sides of the byte length; + exhaustive small strings. non-trivial = the sweep exercised the general path on fitting text / the differential case took the shortcut; distinct = (sub-check, option shape, sweep length bucket or shortcut taken, bytes > columns, sequences, leading / trailing space)",
+        gen,
+        check,
+        panic_is_violation: false,
+        budget: (1200000, 36000000),
+        extra: Some(extra),
+        required: &["sweep_crossed_shortcut_threshold", "diff_line_shortcut_taken", "diff_line_general_path", "diff_fill_shortcut_taken", "diff_fill_general_path"],
+        known: Some(known),
+    }
+}
+
+fn find(id: &str) -> Option<Prop> {
+    if id == "C05" {
+        Some(prop())
+    } else {
+        None
+    }
+}
+
 fn main() {
-    println!("todo");
+    std::process::exit(twmon::cli::main_with(find));
 }
